@@ -286,6 +286,7 @@ Definition model_set (k : setk) (v : pyval) : result elem :=
   | Ok (e, _) => Ok e | Err => Err end.
 Definition model_get (k : getk) (e : elem) : result pyval :=
   match k with GetET => get_et e | GetCellValue => get_cellvalue e | GetMeta => get_meta e end.
+Definition is_meta (k : setk) : bool := match k with SetMeta => true | _ => false end.
 (* which reader goes with which writer in the public carriers:
    Cell(v) / set_value, Row.set_value, Table.set_value, VarSet, UserFieldDecl, UserDefined : SetET then GetET (Cell also GetCellValue);
    cell.value = v : SetCellValue then GetCellValue (also GetET);  Meta : SetMeta then GetMeta *)
@@ -312,9 +313,12 @@ Definition same_value (v r : pyval) : bool :=
 
 (* the domain of the property: finite numbers, XML strings, valid dates, whole-second durations *)
 Definition float_repr_ok (r : str) : bool := match dec_of_text r with Some _ => true | None => false end.
+Definition dec_text_roundtrips (d : dec) : bool :=
+  match dec_of_text (str_of_dec d) with Some d' => dec_eqb d d' | None => false end.
 Definition in_domain (v : pyval) : bool :=
   match v with
   | VFloat r => float_repr_ok r
+  | VDec d => dec_text_roundtrips d      (* Decimal(str(d)) == d with the same exponent: CPython's own round trip, evaluated on the model for this d *)
   | VStr s => xml_str s
   | VDate y m d => valid_date y m d
   | VDateTime d => valid_dt d
@@ -322,6 +326,12 @@ Definition in_domain (v : pyval) : bool :=
   | VOther => false
   | _ => true
   end.
+(* user-defined metadata rejects None by design (TypeError) *)
+Definition in_domain_for (k : setk) (v : pyval) : bool :=
+  in_domain v && match k, v with SetMeta, VNone => false | _, _ => true end.
+(* a time-zone offset with a seconds part has no xsd:dateTime form: no lexical claim for it *)
+Definition lexical_claimed (v : pyval) : bool :=
+  match v with VDateTime d => match tz d with None => true | Some z => (z mod 60 =? 0)%Z end | _ => true end.
 
 (* lexical space of what was written, by value type *)
 Definition decimal_lexical (s : str) : bool := match dec_of_text s with Some _ => true | None => false end.
